@@ -1,16 +1,16 @@
 package checks
 
-import "os"
+import (
+	"os"
+
+	"verif/vlib"
+)
 
 func getenv(k string) string { return os.Getenv(k) }
 
-// mkTemp makes a scratch directory on tmpfs when available.
+// mkTemp makes a scratch directory (see vlib.ScratchBase).
 func mkTemp(prefix string) (string, error) {
-	d, err := os.MkdirTemp("/dev/shm", "verif-"+prefix+"-")
-	if err != nil {
-		d, err = os.MkdirTemp("", "verif-"+prefix+"-")
-	}
-	return d, err
+	return vlib.MkScratch(prefix)
 }
 
 func rmAll(d string) { os.RemoveAll(d) }
